@@ -56,6 +56,16 @@ def run(model: Model, rep: Report) -> None:
     sj = model.func(I + "ImageWriter._save_jpeg")
     sjs = "".join(unparse(sj.node).split())
     r1.check("data=image.stream.get_data()" in sjs and "else:fp.write(data)" in sjs, site(sj), sj.qualname, "DCT data is written byte for byte (unless CMYK needs inverting)", why="jpeg path changed")
+    r13 = rep.rule("C18-R13", "WHOCALLS", "every exported payload comes out of the stream decoder (stream.get_data()): the still-encoded / still-encrypted bytes (get_rawdata, .rawdata) are never written, so a DCT image behind ASCII85 or Flate, or in an encrypted file, is exported as the JPEG itself", 5)
+    im_mod = model.module("pdfminer.image")
+    for q, f_ in sorted(model.funcs.items()):
+        if not q.startswith("pdfminer.image.") or f_.parent is not None:
+            continue
+        for n in walk_no_nested(f_.node):
+            if isinstance(n, ast.Attribute) and n.attr in ("get_rawdata", "rawdata"):
+                r13.violation(site(f_, n), f_.qualname, unparse(n), "the bytes as stored in the file are used: whatever filters precede the image codec (and the document's encryption) are not undone, and the exported file is not the image")
+            elif isinstance(n, ast.Call) and isinstance(n.func, ast.Attribute) and n.func.attr == "get_data" and unparse(n.func.value).endswith("stream"):
+                r13.ok(site(f_, n), f_.qualname, unparse(n))
     # ---------------------------------------------------------------- R2
     r2 = rep.rule("C18-R2", "UNITS", "BMP writer: 4-byte aligned row size, header fields, bottom-up rows; _save_bmp feeds consecutive rows", 5)
     bw = model.func(I + "BMPWriter.__init__")
